@@ -89,6 +89,20 @@ CORPUS = [
     # pre-posted wildcard receive, ssend
     {"np": 3, "async_small": 64, "detached": 64, "sends": {"0": [(2, 1, 20, 1)], "1": [(2, 2, 4, 3)], "2": []},
      "recvs": {"0": [], "1": [], "2": [(-1, -1, 20, 1, 1), (-1, -1, 20, 2, 0)]}},
+    # two pre-posted receives accept the same small messages, the first with a buffer < async-small-thresh (small mailbox), the
+    # second with a buffer >= it (large mailbox): same tag, then wildcard tag (finding overtaking-preposted-small-buffer-before-large-buffer)
+    {"np": 2, "async_small": 32, "detached": 256, "sends": {"0": [(1, 0, 4, 0), (1, 0, 5, 0)], "1": []},
+     "recvs": {"0": [], "1": [(0, 0, 7, 1, 1), (0, 0, 8, 1, 1)]}},
+    {"np": 2, "async_small": 32, "detached": 256, "sends": {"0": [(1, 0, 4, 0), (1, 1, 7, 2), (1, 0, 5, 3)], "1": []},
+     "recvs": {"0": [], "1": [(0, -1, 7, 1, 1), (0, -1, 7, 1, 1), (0, -1, 8, 1, 1)]}},
+    # a message that is too large for the buffer is refused for its id (its predecessor, an Issend, waits in the large mailbox); the
+    # receive then takes the small message of rank 2: no truncation (regression of the fix "a receive kept the truncation flag ...")
+    {"np": 3, "async_small": 64, "detached": 256, "sends": {"0": [(1, 1, 4, 1), (1, 1, 8, 0)], "1": [], "2": [(1, 1, 4, 0)]},
+     "recvs": {"0": [], "1": [(-1, 1, 6, 0, 0), (-1, 1, 8, 0, 0), (-1, 1, 8, 0, 0)], "2": []}},
+    # an Iprobe loop that never sees its message because a wildcard-tag receive took it (finding overtaking-anytag-different-tags):
+    # the give-up marker of the driver is not a payload
+    {"np": 2, "async_small": 32, "detached": 256, "sends": {"0": [], "1": [(0, 2, 65, 3), (0, 1, 5, 1), (0, 1, 7, 2)]},
+     "recvs": {"0": [(1, 1, 8, 2, 0), (1, -1, 65, 4, 0), (1, 1, 5, 3, 0)], "1": []}},
 ]
 
 
@@ -112,6 +126,8 @@ def judge(ctx, p, out, rc, err):
             consts = (int(w[1]), int(w[2]))
         if w and w[0] == "V" and len(w) == 12:
             v = [int(x) for x in w[1:]]
+            if v[2] == -99:
+                continue          # marker of the driver: the Iprobe loop gave up, this receive got nothing (treated as a receive that never completed)
             logs[(v[0], v[1])] = v[2:]
     nrecv = sum(len(p["recvs"][str(r)]) for r in range(np_))
     incomplete = rc != 0 or len(logs) != nrecv
@@ -135,10 +151,19 @@ def judge(ctx, p, out, rc, err):
         rl = p["recvs"][str(r)]
         order = [j for j in range(len(rl)) if rl[j][4]] + [j for j in range(len(rl)) if not rl[j][4]]   # posting order
         taken = set()
-        last_seq = {}
+        presumed = set()
         for j in order:
             src, tag, buf, kind, pre = rl[j]
             if (r, j) not in logs:
+                # the program hung and this receive has no log.  If it was posted (pre-posted ones are), it holds a message we cannot see:
+                # presume the one MPI gives it (first pending message it accepts; of every sender for a wildcard source), so that
+                # this message is not counted as "still pending" against the receives posted after it
+                if pre:
+                    for s in (range(np_) if src < 0 else [src]):
+                        for i, m in enumerate(p["sends"][str(s)]):
+                            if m[0] == r and (s, i) not in taken and (s, i) not in presumed and compat[(r, j, s, i)][0] == 1:
+                                presumed.add((s, i))
+                                break
                 continue
             rcode, ssrc, stag, cnt, m0, m1, m2, m3, fill = logs[(r, j)]
             case = dict(p, receive=[r, j])
@@ -156,7 +181,7 @@ def judge(ctx, p, out, rc, err):
                 ctx.fail("incompatible-match", "receive (src %d tag %d) of rank %d got message from %d tag %d" % (src, tag, r, m0, mtag), case)
                 continue
             # non-overtaking: no earlier message of the same sender that this receive accepts is still pending
-            earlier = [i for i in range(m1) if p["sends"][str(m0)][i][0] == r and (m0, i) not in taken
+            earlier = [i for i in range(m1) if p["sends"][str(m0)][i][0] == r and (m0, i) not in taken and (m0, i) not in presumed
                        and compat[(r, j, m0, i)][0] == 1]
             if earlier:
                 e = earlier[0]
@@ -166,6 +191,13 @@ def judge(ctx, p, out, rc, err):
                 sig = "overtaking-" + kindsig + ("-preposted" if pre else "")
                 if pre and ecnt > buf and 4 * buf < p["async_small"] <= 4 * ecnt:
                     sig = "truncation-deadlock-preposted"      # same root cause: the receive sits in the small mailbox, the message goes to the large one
+                elif pre and 4 * buf < p["async_small"] and 4 * ecnt < p["async_small"]:
+                    # this receive waits in the small mailbox; a small message looks for a posted receive in the large mailbox first:
+                    # a receive posted LATER with a buffer >= the threshold (large mailbox) that accepts the message gets it
+                    later = [j2 for j2 in order[order.index(j) + 1:] if rl[j2][4] and 4 * rl[j2][2] >= p["async_small"]
+                             and compat[(r, j2, m0, e)][0] == 1 and ((r, j2) not in logs or tuple(logs[(r, j2)][4:6]) == (m0, e))]
+                    if later:
+                        sig = "overtaking-preposted-small-buffer-before-large-buffer"
                 ctx.fail(sig,
                          "rank %d receive %d (src %d tag %d%s) got message #%d (tag %d, %d bytes) of rank %d while its earlier message #%d "
                          "(tag %d, %d bytes) was still pending; async-small-thresh %d detached-thresh %d" % (
